@@ -26,6 +26,8 @@ pub enum Outcome {
 }
 
 struct RunCfg<'a> {
+    /// operations applied before the explored history (exploration from a non-initial state); never disabled
+    prelude: &'a [Op],
     ops: &'a [Op],
     props: &'a [Prop],
     salt: usize,
@@ -43,6 +45,15 @@ fn run_one(cfg: &RunCfg, hist: &[u8]) -> Outcome {
     let r = catch_unwind(AssertUnwindSafe(|| {
         let mut ex = ManuallyDrop::new(Exec::new());
         let n = hist.len();
+        for (i, op) in cfg.prelude.iter().enumerate() {
+            ex.class = None;
+            if ex.apply(op, &mut chk) == Step::Disabled {
+                panic!("machinery: disabled op inside a prelude");
+            }
+            if n == 0 && i + 1 == cfg.prelude.len() {
+                ex.check_state(&mut chk, op);
+            }
+        }
         for (i, &oi) in hist.iter().enumerate() {
             let op = &cfg.ops[oi as usize];
             ex.class = None;
@@ -237,13 +248,53 @@ pub fn alpha(name: &str) -> Alpha {
         Some((b, k)) => (b, k.parse::<usize>().expect("salt")),
         None => (name, 0),
     };
+    // "alphabet+prelude": the exploration starts from the state the named prelude builds
+    let (base, pre) = match base.split_once('+') {
+        Some((b, p)) => (b, prelude(p)),
+        None => (base, vec![]),
+    };
     let ops = alphabet(base);
     let ops2 = ops.clone();
     Alpha {
         n: ops.len(),
         kinds: ops.iter().map(|o| o.kind()).collect(),
         names: ops.iter().map(|o| format!("{:?}", o)).collect(),
-        run: Box::new(move |hist, props, verbose| run_one(&RunCfg { ops: &ops2, props, salt, check_all_steps: false, verbose }, hist)),
+        run: Box::new(move |hist, props, verbose| run_one(&RunCfg { prelude: &pre, ops: &ops2, props, salt, check_all_steps: false, verbose }, hist)),
+    }
+}
+
+/// Named preludes: fixed operation sequences that put the world into a state the breadth-first search cannot
+/// reach within its depth bound (many tables, so that the table map has grown and rehashed; emptied tables;
+/// a free list with several generations), from which the search then starts.
+pub fn prelude(name: &str) -> Vec<Op> {
+    use Op::*;
+    use Tgt::*;
+    match name {
+        // 13 tables, one row each (every shape but AZ, ZO, AZO); the first entity has no component, the second
+        // has A: the shape alphabet creates the 14th and the 15th table (the table map then grows from 16
+        // to 32 buckets while locations point into it)
+        "t13" => [0u8, 1, 2, 4, 5, 8, 9, 10, 11, 12, 13, 14, 15].iter().map(|&mask| Insert { mask, rev: mask % 2 == 1 }).collect(),
+        // the same for the twin / ctwin / copy alphabets: every shape but AZ, AO, ZOB; the first entity has A
+        "t13w" => [1u8, 0, 2, 4, 6, 7, 8, 9, 10, 11, 12, 13, 15].iter().map(|&mask| Insert { mask, rev: mask % 2 == 0 }).collect(),
+        // all 16 tables; three emptied again (one by a shape change), one refilled, three slots on the free list
+        "t16" => {
+            let mut v: Vec<Op> = (0..16u8).map(|mask| Insert { mask, rev: mask % 3 == 1 }).collect();
+            v.extend([Remove(Lo), Remove(Mid), Remove(Hi), Add(Lo, 1), RemoveComp(Mid, 0)]);
+            v
+        }
+        // free list of three slots with generations 1, 2, 1; rows swapped; one emptied table
+        "gen" => vec![
+            Extend { mask: 1, n: 3, style: 0 },
+            Insert { mask: 5, rev: true },
+            Remove(Lo),
+            Insert { mask: 1, rev: false },
+            Remove(Lo),
+            Remove(Lo),
+            Remove(Mid),
+            Extend { mask: 1, n: 2, style: 0 },
+            Remove(Mid),
+        ],
+        _ => panic!("unknown prelude {name}"),
     }
 }
 
@@ -381,29 +432,29 @@ fn default_configs(prop: Prop, tier: &str) -> Vec<(&'static str, usize)> {
     let q = tier == "quick";
     match prop {
         Prop::C01 => {
-            if q { vec![("shape", 7), ("alloc", 8), ("copy", 7), ("all", 3), ("zbig", 6), ("w8", 5), ("w9", 5), ("w10", 5), ("w0", 5), ("w64", 4)] } else { vec![("shape", 8), ("alloc", 10), ("copy", 8), ("all", 4), ("zbig", 7), ("w8", 7), ("w9", 7), ("w10", 7), ("w0", 7), ("w64", 6), ("copy@3", 6), ("shape@5", 6)] }
+            if q { vec![("shape", 7), ("alloc", 8), ("copy", 7), ("all", 3), ("zbig", 6), ("w8", 5), ("w9", 5), ("w10", 5), ("w0", 5), ("w64", 4), ("shape+t13", 4), ("copy+t16", 3), ("alloc+gen", 5)] } else { vec![("shape", 8), ("alloc", 10), ("copy", 8), ("all", 4), ("zbig", 7), ("w8", 7), ("w9", 7), ("w10", 7), ("w0", 7), ("w64", 6), ("copy@3", 6), ("shape@5", 6), ("shape+t13", 5), ("copy+t16", 5), ("alloc+gen", 7), ("all+t13", 2), ("shape+t13@1", 4)] }
         }
         Prop::C02 => {
-            if q { vec![("alloc", 8), ("stale", 7), ("copy", 7), ("shape", 6), ("all", 3), ("w8", 5), ("w9", 5), ("w10", 5), ("w0", 5), ("w64", 4)] } else { vec![("alloc", 10), ("stale", 8), ("copy", 8), ("shape", 7), ("all", 4), ("w8", 7), ("w9", 7), ("w10", 7), ("w0", 7), ("w64", 6)] }
+            if q { vec![("alloc", 8), ("stale", 7), ("copy", 7), ("shape", 6), ("all", 3), ("w8", 5), ("w9", 5), ("w10", 5), ("w0", 5), ("w64", 4), ("alloc+gen", 5), ("stale+gen", 4), ("shape+t13", 4)] } else { vec![("alloc", 10), ("stale", 8), ("copy", 8), ("shape", 7), ("all", 4), ("w8", 7), ("w9", 7), ("w10", 7), ("w0", 7), ("w64", 6), ("alloc+gen", 7), ("stale+gen", 6), ("shape+t13", 5), ("stale+t16", 4)] }
         }
         Prop::C04 => {
-            if q { vec![("shape", 7), ("copy", 7), ("all", 3), ("zbig", 7), ("w8", 5), ("w9", 5), ("w10", 5), ("w0", 5), ("w64", 4), ("zbig@1", 6)] } else { vec![("shape", 8), ("copy", 8), ("all", 4), ("zbig", 8), ("alloc", 8), ("w8", 7), ("w9", 7), ("w10", 7), ("w0", 7), ("w64", 6), ("zbig@1", 7), ("copy@1", 7)] }
+            if q { vec![("shape", 7), ("copy", 7), ("all", 3), ("zbig", 7), ("w8", 5), ("w9", 5), ("w10", 5), ("w0", 5), ("w64", 4), ("zbig@1", 6), ("shape+t13", 4), ("copy+t16", 3)] } else { vec![("shape", 8), ("copy", 8), ("all", 4), ("zbig", 8), ("alloc", 8), ("w8", 7), ("w9", 7), ("w10", 7), ("w0", 7), ("w64", 6), ("zbig@1", 7), ("copy@1", 7), ("shape+t13", 5), ("copy+t16", 5), ("zbig+t13", 5)] }
         }
         Prop::C05 => {
             // odd address salts run the checking allocator in grow-in-place mode (a growing realloc keeps the pointer)
-            if q { vec![("zbig", 7), ("shape", 7), ("copy", 7), ("alloc", 7), ("all", 3), ("w8", 5), ("w9", 5), ("w10", 5), ("w0", 5), ("w64", 4), ("zbig@1", 6), ("copy@1", 5)] } else { vec![("zbig", 8), ("shape", 8), ("copy", 8), ("alloc", 9), ("all", 4), ("w8", 7), ("w9", 7), ("w10", 7), ("w0", 7), ("w64", 6), ("zbig@1", 7), ("copy@1", 7), ("shape@1", 6)] }
+            if q { vec![("zbig", 7), ("shape", 7), ("copy", 7), ("alloc", 7), ("all", 3), ("w8", 5), ("w9", 5), ("w10", 5), ("w0", 5), ("w64", 4), ("zbig@1", 6), ("copy@1", 5), ("shape+t13", 4), ("copy+t16", 3), ("zbig+t13", 4)] } else { vec![("zbig", 8), ("shape", 8), ("copy", 8), ("alloc", 9), ("all", 4), ("w8", 7), ("w9", 7), ("w10", 7), ("w0", 7), ("w64", 6), ("zbig@1", 7), ("copy@1", 7), ("shape@1", 6), ("shape+t13", 5), ("copy+t16", 5), ("zbig+t13", 5), ("shape+t13@1", 4), ("copy+t16@1", 4)] }
         }
         Prop::C13 => {
-            if q { vec![("alloc", 8), ("shape", 7), ("copy", 7), ("stale", 6), ("all", 3), ("zbig", 6), ("w8", 5), ("w9", 5), ("w10", 5), ("w0", 5), ("w64", 4)] } else { vec![("alloc", 10), ("shape", 8), ("copy", 8), ("stale", 8), ("all", 4), ("zbig", 7), ("w8", 7), ("w9", 7), ("w10", 7), ("w0", 7), ("w64", 6), ("copy@3", 6), ("all@9", 3)] }
+            if q { vec![("alloc", 8), ("shape", 7), ("copy", 7), ("stale", 6), ("all", 3), ("zbig", 6), ("w8", 5), ("w9", 5), ("w10", 5), ("w0", 5), ("w64", 4), ("shape+t13", 4), ("copy+t16", 3), ("alloc+gen", 5), ("stale+t16", 3)] } else { vec![("alloc", 10), ("shape", 8), ("copy", 8), ("stale", 8), ("all", 4), ("zbig", 7), ("w8", 7), ("w9", 7), ("w10", 7), ("w0", 7), ("w64", 6), ("copy@3", 6), ("all@9", 3), ("shape+t13", 5), ("copy+t16", 5), ("alloc+gen", 7), ("stale+t16", 5), ("all+t16", 2)] }
         }
         Prop::C15 => {
-            if q { vec![("res", 9), ("all", 3), ("copy", 6)] } else { vec![("res", 11), ("all", 4), ("copy", 7)] }
+            if q { vec![("res", 9), ("all", 3), ("copy", 6), ("res+t16", 3)] } else { vec![("res", 11), ("all", 4), ("copy", 7), ("res+t16", 5)] }
         }
         Prop::C06 => {
-            if q { vec![("twin", 7), ("copy", 7), ("alloc", 8), ("w8", 5), ("w9", 5), ("w10", 5), ("w0", 5), ("w64", 4)] } else { vec![("twin", 8), ("copy", 8), ("alloc", 10), ("all", 4), ("w8", 7), ("w9", 7), ("w10", 7), ("w0", 7), ("w64", 6), ("twin@3", 6), ("copy@7", 6)] }
+            if q { vec![("twin", 7), ("copy", 7), ("alloc", 8), ("w8", 5), ("w9", 5), ("w10", 5), ("w0", 5), ("w64", 4), ("twin+t13w", 3), ("copy+t16", 3)] } else { vec![("twin", 8), ("copy", 8), ("alloc", 10), ("all", 4), ("w8", 7), ("w9", 7), ("w10", 7), ("w0", 7), ("w64", 6), ("twin@3", 6), ("copy@7", 6), ("twin+t13w", 5), ("copy+t16", 5), ("twin+t16", 4), ("twin+gen", 5)] }
         }
         Prop::C10 => {
-            if q { vec![("ctwin", 7), ("copy", 7), ("all", 3)] } else { vec![("ctwin", 8), ("copy", 8), ("all", 4), ("ctwin@3", 6), ("copy@5", 6)] }
+            if q { vec![("ctwin", 7), ("copy", 7), ("all", 3), ("ctwin+t13w", 3), ("copy+t16", 3)] } else { vec![("ctwin", 8), ("copy", 8), ("all", 4), ("ctwin@3", 6), ("copy@5", 6), ("ctwin+t13w", 5), ("copy+t16", 5), ("ctwin+t16", 4)] }
         }
         Prop::C16 => vec![("copy", 3)],
         // the wide-registry harnesses only: queries and filters over component positions at and beyond the first byte boundary
